@@ -295,10 +295,9 @@ def correspond(ctx):
                 # tolerances near the limit of double precision: the iterates reach the boundary of the cone to rounding (float margin 0.0,
                 # exact margin -1e-15); membership is judged with a rounding allowance relative to the size of the block
                 def margin(v, dims_):
-                    o_ = dims_['l']; ms = [v[i] for i in range(o_)]
-                    for m_ in dims_['q']:
-                        ms.append((v[o_] - math.sqrt(sum(v[o_ + i] ** 2 for i in range(1, m_)))) / (1.0 + abs(v[o_]))); o_ += m_
-                    return min(ms + [0.0]) if not dims_['s'] else None
+                    try: g_ = certlib.cone_margin(v, dims_)
+                    except Exception: return None
+                    return None if g_ is None else g_ / (1.0 + max([abs(t) for t in v] + [0.0]))
                 mg = [margin(mlist(r['sl']), desc['dims']), margin(mlist(r['zl']), desc['dims'])]
                 if all(g is not None and g >= -1e-13 for g in mg): inK = True
             if pres > ft or dres > ft or not (inK and nonneg) or not gapok:
